@@ -136,6 +136,21 @@ impl Request {
         }
     }
 
+    fn check_bytes_presented(
+        &self,
+        unconsumed: usize,
+    ) -> Result<(), Error> {
+        match self.max_message_size {
+            Some(max_message_size)
+                if self.total_bytes.saturating_add(unconsumed)
+                    > max_message_size =>
+            {
+                Err(Error::MessageTooLong)
+            },
+            _ => Ok(()),
+        }
+    }
+
     /// Produce the raw bytes form of the request, according to the rules of
     /// [IETF RFC 7320 section
     /// 3](https://tools.ietf.org/html/rfc7230#section-3):
@@ -362,6 +377,10 @@ impl Request {
                     });
                 },
                 ParseStatusInternal::Incomplete => {
+                    // Input not yet consumed still belongs to this message.
+                    self.check_bytes_presented(
+                        raw_message.len() - total_consumed,
+                    )?;
                     return Ok(ParseResults {
                         status: ParseStatus::Incomplete,
                         consumed: total_consumed,
